@@ -261,6 +261,7 @@ class LoopMixin:
         stable_refs = [v.t for nm, v in st.env.items()
                        if nm not in body_names and nm != idx and (is_reflike(v.ty)) and z3.is_expr(v.t)]
         by_key = {}
+        closed_later = []
         for key, ref in self.last_dry_refs:
             by_key.setdefault(key, []).append(ref)
         for key in sorted(mod_keys):
@@ -282,6 +283,7 @@ class LoopMixin:
                 if key == "List.len":
                     h.assume(z3.ForAll([rr], z3.Select(new, rr) >= 0, patterns=[z3.Select(new, rr)]))
                 h.heap[key] = new
+                closed_later.append((key, new))
             elif refs and key not in lc.get("modifies", []) and all(
                     r is not None and is_stable(r) for r in refs):
                 # pointwise havoc: only the cells of loop-invariant references change
@@ -298,11 +300,14 @@ class LoopMixin:
                 h.heap[key] = new
             else:
                 h.heap[key] = fresh("lh_" + key, arr.sort())
+                closed_later.append((key, h.heap[key]))
                 if key == "List.len":
                     rr = fresh("r", I)
                     h.assume(z3.ForAll([rr], z3.Select(h.heap[key], rr) >= 0, patterns=[z3.Select(h.heap[key], rr)]))
         if allocates:
             h.new_epoch_at_least(st.alloc)
+        for key, arr_ in closed_later:
+            self.assume_closed(h, key, arr_)
         # refs held in havocked locals are allocated
         for name in body_names:
             if name in h.env:
